@@ -411,11 +411,11 @@ def check(prop, tier):
     groups = cfg['groups']
     units = cfg['units']          # unit ids whose obligations belong to this property ("*" = all)
     safety_only = cfg.get('safety_only', False)
-    with concurrent.futures.ThreadPoolExecutor(max_workers=4) as ex:
+    with concurrent.futures.ThreadPoolExecutor(max_workers=10) as ex:
         results = list(ex.map(lambda g: run_group(g, tier), groups))
     if tier == 'thorough':
         # second solver configuration: a different random seed must agree (unstable proof => undecided)
-        with concurrent.futures.ThreadPoolExecutor(max_workers=4) as ex:
+        with concurrent.futures.ThreadPoolExecutor(max_workers=10) as ex:
             results2 = list(ex.map(lambda g: run_group(g, tier, seed=(seed or 0) + 17), groups))
         for r, r2 in zip(results, results2):
             if r['status'] != r2['status']:
